@@ -107,6 +107,27 @@ impl HeaderMap {
     #[verifier::external_body]
     pub fn get_all<K: AsHeaderName>(&self, k: K) -> (r: HGetAll<'_>) ensures r.vals@ == values_at(self@, k.hname()) { unimplemented!() }
 }
+impl HeaderMap {
+    // A-http-31: get_mut hands out the first value of the name; iter_mut yields every (name, value) pair once, in order
+    #[verifier::external_body]
+    pub fn get_mut<K: AsHeaderName>(&mut self, k: K) -> (r: Option<&mut HeaderValue>)
+        ensures r is Some <==> old(self)@.contains_key(k.hname()), r matches Some(v) ==> old(self)@[k.hname()].len() > 0 && (*v)@ == old(self)@[k.hname()][0]
+    { unimplemented!() }
+}
+pub struct HIterMut<'a> { pub rest: Ghost<Seq<(Seq<char>, Seq<u8>)>>, pub m: &'a mut HeaderMap }
+impl<'a> HIterMut<'a> {
+    #[verifier::external_body]
+    pub fn next(&mut self) -> (r: Option<(&'a HeaderName, &'a mut HeaderValue)>)
+        ensures
+            old(self).rest@.len() == 0 ==> r is None && final(self).rest@ == old(self).rest@,
+            old(self).rest@.len() > 0 ==> (r matches Some(p) && p.0@ == old(self).rest@[0].0 && (*p.1)@ == old(self).rest@[0].1 && final(self).rest@ == old(self).rest@.skip(1)),
+    { unimplemented!() }
+}
+impl<VE: ValueEncoding> MetadataValue<VE> {
+    // A-tonic-unsafe-01 (as for the shared-reference twin): the repr(transparent) cast of a mutable header value
+    #[verifier::external_body]
+    pub fn unchecked_from_mut_header_value_ref(header_value: &mut HeaderValue) -> (r: &mut Self) ensures (*r).inner@ == (*old(header_value))@ { unimplemented!() }
+}
 impl<'a> HGetAll<'a> {
     #[verifier::external_body]
     pub fn iter(&self) -> (r: HValueIter<'a>) ensures r.rest@ == self.vals@ { unimplemented!() }
@@ -134,6 +155,11 @@ pub mod as_metadata_key {
             ensures
                 self.key_ok() ==> final(map).headers@ == old(map).headers@.remove(self.key_name()),
                 !self.key_ok() ==> final(map).headers@ == old(map).headers@ && r is None;
+        fn get_mut(self, map: &mut MetadataMap) -> (r: Option<&mut MetadataValue<VE>>)
+            ensures
+                r is Some ==> self.key_ok() && old(map).headers@.contains_key(self.key_name()),
+                r matches Some(v) ==> (*v).inner@ == old(map).headers@[self.key_name()][0],
+                r is None ==> !self.key_ok() || !old(map).headers@.contains_key(self.key_name());
         // every value of the name, in order - and only for a key of this side of the partition
         fn get_all(self, map: &MetadataMap) -> (r: Option<HGetAll<'_>>)
             ensures
@@ -241,6 +267,8 @@ def build():
     open spec fn key_name(&self) -> Seq<char> { self@ }
     open spec fn key_ok(&self) -> bool { VE::valid_key(self@) }''')
     u._open_header = 'impl<VE: ValueEncoding> as_metadata_key::Sealed<VE> for &str {'
+    cl_mut = {0: dict(params='e: &mut HeaderValue', ret='(x: &mut MetadataValue<VE>)', ensures=['(*x).inner@ == (*old(e))@'])}
+    r3mut = [lambda t: t.sub_code('R3', r'\.map\(MetadataValue::unchecked_from_mut_header_value_ref\)', '.map(|e| MetadataValue::unchecked_from_mut_header_value_ref(e))')]
     ga = [lambda t: t.sub_code('R12', r"GetAll<'_, HeaderValue>", "HGetAll<'_>")]
     cl_ref = {0: dict(params='e: &HeaderValue', ret='(x: &MetadataValue<VE>)', ensures=['x.inner@ == e@'])}
     cl_val = {0: dict(params='e: HeaderValue', ret='(x: MetadataValue<VE>)', ensures=['x.inner@ == e@'])}
@@ -250,6 +278,7 @@ def build():
     u.fn(MP, 'get', within=W, nth=0, body_edits=r3ref, closures=cl_ref, display='as_metadata_key::Sealed for &str::get')
     u.fn(MP, 'remove', within=W, nth=0, body_edits=r3val, closures=cl_val, display='as_metadata_key::Sealed for &str::remove')
     u.fn(MP, 'get_all', within=W, nth=0, sig_edits=ga, display='as_metadata_key::Sealed for &str::get_all')
+    u.fn(MP, 'get_mut', within=W, nth=0, body_edits=r3mut, closures=cl_mut, display='as_metadata_key::Sealed for &str::get_mut')
     u.close('}')
     u._emit('''impl<VE: ValueEncoding> as_metadata_key::Sealed<VE> for MetadataKey<VE> {
     open spec fn key_name(&self) -> Seq<char> { self.inner@ }
@@ -259,6 +288,7 @@ def build():
     u.fn(MP, 'get', within=WK, nth=0, body_edits=r3ref, closures=cl_ref, display='as_metadata_key::Sealed for MetadataKey::get')
     u.fn(MP, 'remove', within=WK, nth=0, body_edits=r3val, closures=cl_val, display='as_metadata_key::Sealed for MetadataKey::remove')
     u.fn(MP, 'get_all', within=WK, nth=0, sig_edits=ga, display='as_metadata_key::Sealed for MetadataKey::get_all')
+    u.fn(MP, 'get_mut', within=WK, nth=0, body_edits=r3mut, closures=cl_mut, display='as_metadata_key::Sealed for MetadataKey::get_mut')
     u.close('}')
     u._emit('''impl<VE: ValueEncoding> into_metadata_key::Sealed<VE> for MetadataKey<VE> {
     open spec fn key_name(&self) -> Seq<char> { self.inner@ }
@@ -292,6 +322,7 @@ def build():
     u.fn(MP, 'get', within=WR, nth=0, body_edits=r3ref, closures=cl_ref, display='as_metadata_key::Sealed for &MetadataKey::get')
     u.fn(MP, 'remove', within=WR, nth=0, body_edits=r3val, closures=cl_val, display='as_metadata_key::Sealed for &MetadataKey::remove')
     u.fn(MP, 'get_all', within=WR, nth=0, sig_edits=ga, display='as_metadata_key::Sealed for &MetadataKey::get_all')
+    u.fn(MP, 'get_mut', within=WR, nth=0, body_edits=r3mut, closures=cl_mut, display='as_metadata_key::Sealed for &MetadataKey::get_mut')
     u.close('}')
     for ty, hdr_ty, disp in (('String', 'String', 'String'), ("&'k String", '&String', '&String')):
         lt = "<'k, VE: ValueEncoding>" if "'k" in ty else '<VE: ValueEncoding>'
@@ -303,6 +334,7 @@ def build():
         u.fn(MP, 'get', within=WT, nth=0, body_edits=r3ref, closures=cl_ref, display='as_metadata_key::Sealed for %s::get' % disp)
         u.fn(MP, 'remove', within=WT, nth=0, body_edits=r3val, closures=cl_val, display='as_metadata_key::Sealed for %s::remove' % disp)
         u.fn(MP, 'get_all', within=WT, nth=0, sig_edits=ga, display='as_metadata_key::Sealed for %s::get_all' % disp)
+        u.fn(MP, 'get_mut', within=WT, nth=0, body_edits=r3mut, closures=cl_mut, display='as_metadata_key::Sealed for %s::get_mut' % disp)
         u.close('}')
 
     u._emit('impl MetadataMap {'); u._open_header = 'impl MetadataMap {'
@@ -352,6 +384,41 @@ def build():
                          '''(old(self).inner is Some && old(self).inner->Some_0.rest@.len() > 0) ==> (r is Some && r->Some_0.inner@ == old(self).inner->Some_0.rest@[0]
                 && final(self).inner is Some && final(self).inner->Some_0.rest@ == old(self).inner->Some_0.rest@.skip(1))'''),
                   Clause('A4_end', '(old(self).inner is None || old(self).inner->Some_0.rest@.len() == 0) ==> r is None')])
+    u._emit('impl MetadataMap {'); u._open_header = 'impl MetadataMap {'
+    for name in ('get_mut', 'get_bin_mut'):
+        u.fn(MP, name, within='impl MetadataMap', nth=0,
+             ensures=[Clause('G1m_the_mutable_accessor_never_crosses_the_partition', 'r is Some ==> key.key_ok() && old(self).headers@.contains_key(key.key_name())'),
+                      Clause('G2m_first_value', 'r matches Some(v) ==> (*v).inner@ == old(self).headers@[key.key_name()][0]')])
+    u.close('}')
+    u.item(MP, 'enum', 'KeyAndMutValueRef')
+    u.item(MP, 'enum', 'ValueRefMut')
+    u.raw("pub struct IterMut<'a> { pub inner: HIterMut<'a> }\npub struct ValuesMut<'a> { pub inner: HIterMut<'a> }")
+    u.fn(MP, 'next', within="impl<'a> Iterator for IterMut<'a>", header="impl<'a> IterMut<'a> {", close=True, display='IterMut::next',
+         sig_edits=[lambda t: t.sub_code('R9', r'Self::Item', "KeyAndMutValueRef<'a>")],
+         closures={0: dict(params="item: (&'a HeaderName, &'a mut HeaderValue)", ret="(x: KeyAndMutValueRef<'a>)",
+                           ensures=['''match x {
+                    KeyAndMutValueRef::Ascii(k, v) => !is_bin_key(item.0@) && k.inner@ == item.0@ && (*v).inner@ == (*old(item.1))@,
+                    KeyAndMutValueRef::Binary(k, v) => is_bin_key(item.0@) && k.inner@ == item.0@ && (*v).inner@ == (*old(item.1))@,
+                }'''])},
+         ensures=[Clause('N1m_the_mutable_iterator_presents_each_entry_on_its_own_side',
+                         '''old(self).inner.rest@.len() > 0 ==> (r matches Some(x) && (match x {
+                    KeyAndMutValueRef::Ascii(k, v) => !is_bin_key(old(self).inner.rest@[0].0) && k.inner@ == old(self).inner.rest@[0].0 && (*v).inner@ == old(self).inner.rest@[0].1,
+                    KeyAndMutValueRef::Binary(k, v) => is_bin_key(old(self).inner.rest@[0].0) && k.inner@ == old(self).inner.rest@[0].0 && (*v).inner@ == old(self).inner.rest@[0].1,
+                }))'''),
+                  Clause('N2m_end', 'old(self).inner.rest@.len() == 0 ==> r is None')])
+    u.fn(MP, 'next', within="impl<'a> Iterator for ValuesMut<'a>", header="impl<'a> ValuesMut<'a> {", close=True, display='ValuesMut::next',
+         sig_edits=[lambda t: t.sub_code('R9', r'Self::Item', "ValueRefMut<'a>")],
+         closures={0: dict(params="item: (&'a HeaderName, &'a mut HeaderValue)", ret="(x: ValueRefMut<'a>)",
+                           ensures=['''match x {
+                    ValueRefMut::Ascii(v) => !is_bin_key(item.0@) && (*v).inner@ == (*old(item.1))@,
+                    ValueRefMut::Binary(v) => is_bin_key(item.0@) && (*v).inner@ == (*old(item.1))@,
+                }'''])},
+         ensures=[Clause('V1m_each_mutable_value_is_presented_on_the_side_of_its_key',
+                         '''old(self).inner.rest@.len() > 0 ==> (r matches Some(x) && (match x {
+                    ValueRefMut::Ascii(v) => !is_bin_key(old(self).inner.rest@[0].0) && (*v).inner@ == old(self).inner.rest@[0].1,
+                    ValueRefMut::Binary(v) => is_bin_key(old(self).inner.rest@[0].0) && (*v).inner@ == old(self).inner.rest@[0].1,
+                }))'''),
+                  Clause('V2m_end', 'old(self).inner.rest@.len() == 0 ==> r is None')])
     u.item(MP, 'enum', 'KeyAndValueRef')
     u.fn(MP, 'next', within="impl<'a> Iterator for Iter<'a>", header="impl<'a> Iter<'a> {", close=True,
          sig_edits=[lambda t: t.sub_code('R9', r'Self::Item', "KeyAndValueRef<'a>")],
